@@ -2,7 +2,7 @@
    ONLY statements: each theorem is closed by `exact` of a lemma proved elsewhere and followed by Print Assumptions. *)
 From Coq Require Import ZArith NArith List Bool Lia Permutation FMapPositive.
 Import ListNotations.
-Require Import Base Strings Builtins Interp Machine Spec HeapFacts Refine1 Refine2 Refine3 Refine4 RunG Exc Once.
+Require Import Base Strings Builtins Interp Machine Spec HeapFacts Refine1 Refine2 Refine3 Refine4 RunG Exc Once CountDef Count.
 
 (* caches only fill and never change, along every evaluation *)
 Theorem cache_stable_thunk n ip h w u h' w' r d :
@@ -55,4 +55,27 @@ Theorem machine_implements_spec fuel prog stdin h' w' r d :
                    h' q' [Fr None (retc r) []] w'.
 Proof. exact (Refine4.machine_implements_spec fuel prog stdin h' w' r d). Qed.
 Print Assumptions machine_implements_spec.
+
+(* the specification semantics instrumented with the LIST of delayed expressions whose evaluation begins: erasing the list gives back Spec.bs *)
+Theorem bsl_erases  :
+  forall n ip h w tk, fst (bsl n ip h w tk) = bs n ip h w tk.
+Proof. exact (Count.bsl_erases ). Qed.
+Print Assumptions bsl_erases.
+
+Theorem trace_main_is_spec_main fuel prog stdin :
+  fst (trace_main fuel prog stdin) = spec_main fuel prog stdin.
+Proof. exact (Count.trace_main_is_spec_main fuel prog stdin). Qed.
+Print Assumptions trace_main_is_spec_main.
+
+(* AT MOST ONCE: in every completed run of main.main the list of delayed expressions that began evaluation has no repetition *)
+Theorem evaluated_at_most_once fuel prog stdin h' w' r d l :
+  trace_main fuel prog stdin = (Done h' w' r d, l) -> NoDup l.
+Proof. exact (Count.evaluated_at_most_once fuel prog stdin h' w' r d l). Qed.
+Print Assumptions evaluated_at_most_once.
+
+(* LINEAR WORK: the number of evaluations is smaller than the number of delayed expressions created, and each evaluated one holds its result *)
+Theorem work_is_linear fuel prog stdin h' w' r d l :
+  trace_main fuel prog stdin = (Done h' w' r d, l) -> (length l < Pos.to_nat (next_t h'))%nat /\ forall u, In u l -> cached h' u.
+Proof. exact (Count.work_is_linear fuel prog stdin h' w' r d l). Qed.
+Print Assumptions work_is_linear.
 
